@@ -24,6 +24,42 @@ def fuzzer_of(path):
     return "fuzz_ascii" if b.startswith("ascii-") else "fuzz_ovmb"
 
 
+def replay_any(bins, path, timeout=30):
+    """replays a saved C07 input with the tool it belongs to: huge-* files with t_huge, everything else with its fuzzer"""
+    if os.path.basename(path).startswith("huge-"):
+        hb = build_targets(["t_huge"])["t_huge"]
+        try:
+            r = subprocess.run([hb, "--replay", path], stdout=subprocess.PIPE, stderr=subprocess.STDOUT, timeout=120, text=True, errors="replace")
+        except subprocess.TimeoutExpired:
+            return True, "replay did not terminate", True
+        return r.returncode != 0, r.stdout[-1500:], False
+    return replay_fuzz(bins[fuzzer_of(path)], path, timeout)
+
+
+def run_huge(pid, wdir, violations):
+    """declared sizes that cannot be allocated: complete enumeration by t_huge (no sanitizer, RLIMIT_AS child)"""
+    hb = build_targets(["t_huge"])["t_huge"]
+    d = os.path.join(wdir, "huge")
+    os.makedirs(d, exist_ok=True)
+    out = os.path.join(d, "huge.json")
+    r = subprocess.run([hb, "--out", out, "--faildir", d], stdout=subprocess.PIPE, stderr=subprocess.STDOUT, text=True, errors="replace")
+    cov = {}
+    try:
+        j = json.load(open(out))
+        cov = {"huge_value_cases": j["huge_value_cases"]}
+        cov.update(j["classes"])
+    except Exception as e:
+        log("warning: t_huge wrote no statistics: %s" % e)
+    for l in r.stdout.splitlines():
+        if l.startswith("HUGE-FAIL "):
+            src = l.split()[1]
+            dst = os.path.join(REPLAYS, pid)
+            os.makedirs(dst, exist_ok=True)
+            shutil.copy(src, os.path.join(dst, os.path.basename(src)))
+            violations.append((os.path.join(dst, os.path.basename(src)), "huge declared size: " + l.split(" : ", 1)[-1]))
+    return cov
+
+
 def replay_fuzz(binpath, path, timeout=30):
     """returns (fails, output, timed_out)"""
     try:
@@ -67,9 +103,10 @@ def run(pid, tier, cfg):
     nreg = 0
     for f in sorted(glob.glob(os.path.join(REPLAYS, pid, "*"))):
         nreg += 1
-        fails, out, _ = replay_fuzz(bins[fuzzer_of(f)], f)
+        fails, out, _ = replay_any(bins, f)
         if fails:
             violations.append((f, "regression input fails: " + (out.strip().splitlines()[-1] if out.strip() else "")))
+    huge_cov = run_huge(pid, wdir, violations)
     procs = []
     per = max(1, min(tcfg["workers"], NCPU) // len(fuzzers))
     corpora = tcfg.get("corpora", ["seeded"])
@@ -177,6 +214,8 @@ def run(pid, tier, cfg):
         "nonreproducible_candidates": nonrepro,
         "campaign": "%d processes x %d s per fuzzer, corpora %s" % (per, tcfg["seconds"], ",".join(corpora)),
     }
+    cov["classes"].update({k: v for k, v in huge_cov.items()})
+    cov["evaluations"] += huge_cov.get("huge_value_cases", 0)
     write_evidence(pid, tier, cfg, cov, time.time() - t0, len(violations))
     for path, msg in violations:
         log("VIOLATION property=%s replay=%s" % (pid, path))
